@@ -239,6 +239,9 @@ var linModel = porcupine.Model{
 func stepModel(m *refmodel.Model, ev HEvent) bool {
 	o := ev.Op
 	switch o.K {
+	case "crash":
+		m.Reopen() // process death: every open transaction is gone, committed state stays
+		return true
 	case "begin":
 		m.Begin(o.tx(), refmodel.Level(o.Level))
 		return ev.Class == ""
